@@ -131,14 +131,20 @@ impl<F: Read + Seek> BufRead for Stream<F> {
             let stream_id = self.stream_id;
             let offset = self.buf_offset_from_start;
             let minialloc = self.minialloc()?;
-            self.buffer.refill_with(remaining, |buf| {
+            let result = self.buffer.refill_with(remaining, |buf| {
                 read_data_from_stream(
                     &mut minialloc.write().unwrap(),
                     stream_id,
                     offset,
                     buf,
                 )
-            })?;
+            });
+            if result.is_err() {
+                // The window has already moved to the cursor; it must not
+                // keep serving the bytes of the previous window.
+                self.buffer.clear();
+            }
+            result?;
         }
         Ok(self.buffer.remaining_slice())
     }
